@@ -154,13 +154,19 @@ def run_case(ctx, rng, index, casedir):
                     ids = set()
                     for off in set(offs):
                         M.hit("index_offsets_resolved")
-                        i = line_index.get(line_at(off))
-                        al = real.read_line(off)
+                        try:
+                            i = line_index.get(line_at(off))
+                            al = real.read_line(off)
+                        except Exception:  # noqa: BLE001 - an offset that cannot even be seeked to
+                            i, al = None, None
                         if i is None or al is None or al.query_name != lines[i].split("\t")[0]:
                             bad += 1
                         ids.add(i)
                     a[key[0]] = sorted(x for x in ids if x is not None)
-                real.close()
+                try:
+                    real.close()
+                except OSError:
+                    pass  # a reader that was seeked to an invalid offset cannot be closed cleanly
                 if bad:
                     viol.append({"kind": "index_offset_unresolvable", "msg": f"{label}: {bad} index offsets do not resolve to a record start in their own file",
                                  "witness": {"sub": sub, "config": label}})
